@@ -95,7 +95,7 @@ _MIN_BASE = {
     "edit:remove_variable": 1700, "edit:set_lower_bound": 2500, "edit:set_upper_bound": 2500,
     "edit:toggle_int_norm": 1400, "edit:to_scalar_variables": 500, "edit:deepcopy": 800,
 }
-HISTORIES_PER_SHARD = {"quick": 450, "thorough": 2500}
+HISTORIES_PER_SHARD = {"quick": 900, "thorough": 12000}
 MIN_COUNTERS = {
     "quick": dict({k: v * 3 for k, v in _MIN_BASE.items()}, directed_cases=19),
     "thorough": dict({k: v * 16 for k, v in _MIN_BASE.items()}, directed_cases=19, suite_invariant_evaluations=3000),
